@@ -774,6 +774,9 @@ class ExcelCompiler:
             if str(excel_data.address) in self.cell_map:
                 # the range referred to is already built, keep its node
                 new_nodes = []
+            elif not excel_data.address.is_range:
+                # an unbounded range in a single row/column is one cell
+                new_nodes = build_cell(excel_data)
             else:
                 self.range_todos.append(str(excel_data.address))
                 new_nodes = build_range(excel_data)
@@ -802,9 +805,13 @@ class ExcelCompiler:
             if cell_range.address.is_unbounded_range:
                 bounded_addr = str(self.eval(cell_range))
                 bounded_addr_cell = self.cell_map.get(bounded_addr)
-                if bounded_addr_cell.value is None:
-                    self._evaluate_range(bounded_addr)
-                data = bounded_addr_cell.value
+                if not isinstance(bounded_addr_cell, _CellRange):
+                    # the used part of the unbounded range is a single cell
+                    data = ((self._evaluate(bounded_addr), ), )
+                else:
+                    if bounded_addr_cell.value is None:
+                        self._evaluate_range(bounded_addr)
+                    data = bounded_addr_cell.value
 
             elif cell_range.formula is None:
                 data = tuple(
